@@ -18,7 +18,8 @@ RULE = ("Hypothesis draws 1-4 scalar recipes, stratified so that each specialise
         "general recipes), an ordered V (own / permuted / superset / declaration / exactly-one-vector) and "
         "3 points; compile_jacobian, compile_gradient and CompiledExpression.gradient are compared with "
         "forward-mode jets in V order at regular points.  Non-trivial = the returned callable is not the "
-        "generic jacobian_fn/symbolic_gradient, or V is permuted / a strict superset.")
+        "generic jacobian_fn/symbolic_gradient, or V is permuted / a strict superset."
+        '  Also: parameters are updated after compilation (same callables re-judged) and the same expression objects are compiled against a second variable list.')
 BUDGET = {"quick": {"workers": 16, "examples": 300}, "thorough": {"workers": 16, "examples": 6000}}
 ASSUMPTIONS = ["jet rules validated against mpmath at start-up", "singular points are C19's domain, not judged here"]
 MANIFEST = {
